@@ -97,14 +97,14 @@ class UsedQubitIndicesVisitor(Visitor):
 
     def _resolve_argument(self, arg, context):
         """Resolve a macro call argument in the scope of the call."""
-        if isinstance(arg, Parameter) and context and arg.name in context:
+        # An argument that cannot be resolved here (an unbound parameter,
+        # when a macro body is inspected on its own) raises: handing it to
+        # the callee unresolved would let the callee's parameters capture
+        # the names in it.
+        if isinstance(arg, Parameter):
             return self._resolve_argument(arg.resolve_value(context), context)
         if isinstance(arg, NamedQubit):
-            try:
-                reg, idx = arg.resolve_qubit(context)
-            except JaqalError:
-                # Not resolvable yet (e.g. when inspecting a macro body on its own)
-                return arg
+            reg, idx = arg.resolve_qubit(context)
             if isinstance(idx, float) and idx.is_integer():
                 idx = int(idx)
             return reg[idx]
